@@ -1357,7 +1357,18 @@ SRef Logic::getSortRef(SymRef const sr) const {
 }
 
 std::string Logic::sortToString(SRef s) const {
-    return sort_store.sortToString(s);
+    // as SStore::sortToString, with the name of a user-declared sort symbol protected like any other symbol
+    SSymRef const ssr = sort_store.getSortSym(s);
+    std::string name = isBuiltinSortSym(ssr) ? sort_store.getSortSymName(ssr) : protectName(sort_store.getSortSymName(ssr), false);
+    auto const size = sort_store[s].getSize();
+    if (size > 0) {
+        name = "(" + name + " ";
+        for (unsigned i = 0; i < size; i++) {
+            name += sortToString(sort_store[s][i]) + (i == size - 1 ? "" : " ");
+        }
+        name += ")";
+    }
+    return name;
 }
 
 SRef Logic::getUniqueArgSort(SymRef sr) const {
